@@ -107,7 +107,7 @@ Proof.
            set (p := firstn (sub_w big s - even_down (s_from s)) (skipn (even_down (s_from s)) (e_nibs e0))).
            assert (Hlp : length p = sub_w big s - even_down (s_from s)).
            { unfold p. rewrite firstn_length, skipn_length. lia. }
-           apply andb_true_iff. split.
+           change ((0 =? 0)%nat) with true. cbn [andb]. apply andb_true_iff. split.
            ++ destruct p; [cbn [length] in Hlp; lia|reflexivity].
            ++ apply forallb_forall. intros x Hx. apply Nat.ltb_lt. rewrite Forall_forall in H16. apply H16.
               unfold p in Hx. apply In_firstn_in in Hx. apply In_skipn_in in Hx. exact Hx.
@@ -188,8 +188,7 @@ Proof.
       unfold v_labs, v_leaves, v_bigs in *. cbn [map nlabels sum_list tails_of length forallb v_big flat_map leaf_idx_of app tree_kids].
       rewrite (map_snd_combine_firstn labels forest n ltac:(lia) Hn), F, firstn_skipn.
       repeat split; try lia; try assumption.
-      * rewrite C, skipn_length. lia.
-      * rewrite andb_assoc. exact E.
+      rewrite andb_assoc. exact E.
 Qed.
 
 (* ---------- all levels ---------- *)
@@ -226,7 +225,7 @@ Proof.
     destruct (assemble_wf o ds base (base + length ss) lbase forest' isbig b nlab Hds Hfl D ltac:(lia))
       as (W & L1 & L2 & L3 & L4 & L5).
     cbn [bfs_trees]. rewrite L5, map_app, wf_from_app.
-    rewrite map_length in L1. rewrite map_length, L1, L2, L3, L4, W, Lds. rewrite D in A. cbn [andb].
+    rewrite map_length in L1. rewrite map_length, L1, L2, L3, L4, W, Lds. rewrite <- D in A. cbn [andb].
     split; [exact A|]. split; [|split].
     + intros k. cbn [Nat.add bfs_trees]. rewrite L5, B. reflexivity.
     + unfold v_leaves in *. rewrite tails_of_app, !app_length, L3, C. reflexivity.
@@ -313,3 +312,55 @@ Qed.
 Lemma flat_wf_from : forall ipfx lpfx nodes leaves,
   flat_wf ipfx lpfx nodes leaves = true -> wf_from ipfx lpfx nodes 0 0 0 true = true.
 Proof. intros ipfx lpfx nodes leaves H. unfold flat_wf in H. apply andb_true_iff in H. tauto. Qed.
+
+Local Open Scope N_scope.
+
+Lemma rank128_both : forall ws i,
+  words_ok ws ->
+  (forall r bit, rank128 ws (index_rank128 ws 0) i = Val (r, bit) ->
+                 r = rank_spec ws i /\ bit = N.b2n (bm_get ws i)) /\
+  (i < 64 * N.of_nat (length ws) -> exists r bit, rank128 ws (index_rank128 ws 0) i = Val (r, bit)).
+Proof.
+  intros ws i Hok. split.
+  - intros r bit. exact (BitmapRank2Proofs.rank128_correct ws i r bit Hok).
+  - exact (BitmapRank2Proofs.rank128_total ws i).
+Qed.
+
+Lemma encode_total_fw : forall nodes ipfx lpfx leaves,
+  flat_wf ipfx lpfx nodes leaves = true -> nodes <> [] ->
+  exists m vs, encode_msg nodes ipfx lpfx leaves = Val m /\ init_vars m = Val vs /\ m_shortsize m <= 10.
+Proof. intros nodes ipfx lpfx leaves H. exact (encode_total nodes ipfx lpfx leaves (flat_wf_from _ _ _ _ H)). Qed.
+
+Lemma get_view_fw : forall nodes ipfx lpfx leaves m vs,
+  flat_wf ipfx lpfx nodes leaves = true ->
+  encode_msg nodes ipfx lpfx leaves = Val m -> init_vars m = Val vs ->
+  forall p v, nth_error nodes p = Some v -> get_view m vs (N.of_nat p) = Val v.
+Proof. intros nodes ipfx lpfx leaves m vs H. exact (get_view_correct nodes ipfx lpfx leaves m vs (flat_wf_from _ _ _ _ H)). Qed.
+
+Lemma children_fw : forall nodes ipfx lpfx leaves m vs,
+  flat_wf ipfx lpfx nodes leaves = true ->
+  encode_msg nodes ipfx lpfx leaves = Val m -> init_vars m = Val vs ->
+  forall p id big step pfx fc labels,
+    nth_error nodes p = Some (VInner id big step pfx fc labels) ->
+    exists ith wsz from to bm plen pfxb,
+      get_node m vs (N.of_nat p) = Val (DnInner ith wsz from to bm plen pfxb) /\
+      first_child m from = Val (N.of_nat fc) /\
+      last_child m to = Val (N.of_nat (fc + length labels - 1)) /\
+      forall k, k < (if big then 257 else 17) ->
+        left_child m from to bm k =
+        Val (N.of_nat (fc - 1 + count_lt (map N.of_nat labels) k),
+             N.b2n (existsb (N.eqb k) (map N.of_nat labels))).
+Proof. intros nodes ipfx lpfx leaves m vs H. exact (children_correct nodes ipfx lpfx leaves m vs (flat_wf_from _ _ _ _ H)). Qed.
+
+Lemma leaves_fw : forall nodes ipfx lpfx leaves m,
+  flat_wf ipfx lpfx nodes leaves = true -> nodes <> [] ->
+  encode_msg nodes ipfx lpfx leaves = Val m ->
+  match leaves with
+  | None => forall l, ith_leaf_bytes m l = Val None
+  | Some elts =>
+    (Forall (fun e => e = []) elts -> forall l, ith_leaf_bytes m l = Val None) /\
+    (~ Forall (fun e => e = []) elts ->
+     (forall l, (l < length elts)%nat -> ith_leaf_bytes m (N.of_nat l) = Val (Some (nth l elts []))) /\
+     (forall l, blen elts <= l -> ith_leaf_bytes m l = Panic))
+  end.
+Proof. intros nodes ipfx lpfx leaves m H. exact (leaves_correct nodes ipfx lpfx leaves m (flat_wf_from _ _ _ _ H)). Qed.
